@@ -116,7 +116,10 @@ TEXT = {
           "and an own-balance delta monitor on every accepted user block, a supply-change monitor (supply moves only by "
           "applied issue / mint / burn calls; a refused mint leaves it unchanged), chains whose genesis puts ZNN / QSR within "
           "0..k reward mints of MaxSupply with reward epochs inside the history, and - through the genesis stream - the "
-          "equality on the chain started from every accepted generated / perturbed genesis configuration.",
+          "equality on the chain started from every accepted generated / perturbed genesis configuration; user-issued tokens of "
+          "huge supply (2^64 .. 2^255-1) whose credits, debits, mints and burns land on 2^k-1 / 2^k / 2^k+1 for k = 31 .. 254; "
+          "and a model-free conservation monitor that walks the chain itself, after every momentum and produced receive of the "
+          "contract-heavy autoreceive (incl. failed contract-to-contract calls) and contract streams.",
   "design_ref": "§3 C01",
   "note": "Non-token contract methods enter as observed outcomes (status, descendants); hash freshness and the send-time "
           "check total <= max of issue calls are hypotheses of reachability; genesis consistency (T5) is C20; below "
@@ -174,7 +177,9 @@ TEXT = {
           "preimages) are generated with real proofs, made again after every generator mutation, and a directed scenario "
           "walks the key / entry behind each proof through absent / present / consumed / foreign / malformed; plus reward "
           "epochs reached with degenerate participants: weightless / no / single "
-          "backers, total weight 0, idle producer, revoked sentinel / stake / pillar entries).",
+          "backers, total weight 0, idle producer, revoked sentinel / stake / pillar entries; plus histories in which the three "
+          "sporks are enforced DURING the history in every order with batches of calls to the gated contracts in every momentum "
+          "around each enforcement height, so that calls accepted under one regime are received under the next).",
   "design_ref": "§3 C09",
   "note": "Panic-freedom/termination of the Go method bodies (T4, T5) is by the autoreceive stream's monitors, not by "
           "per-method Lean models. Known finding F18 (reproduced on the unchanged tree by the scenario "
@@ -303,7 +308,10 @@ TEXT = {
           "sound (fused <= available, total = fused + PoW >= base, <= cap) and no double spend of plasma along unconfirmed "
           "blocks; model tied to the tree by regenerated constants, a differential stream over the full uint64 range, "
           "sessions of real CheckPoWNonce calls on the same (hash, nonce) under changing difficulties, and hand-built "
-          "blocks over the product fused claim x proof-of-work x account state through ApplyBlock on a real node.",
+          "blocks over the product fused claim x proof-of-work x account state through ApplyBlock on a real node; the base cost "
+          "itself over block type x destination (ordinary, zero, own, unknown address, embedded) x data length (0 .. 16 KiB+1) "
+          "against basePlasmaChecked (base_cost_checked: the destination of a plain send plays no role) and by hand-built sends "
+          "one plasma unit below / at that cost.",
   "design_ref": "§3 C12",
   "note": "SHA3 is a parameter; the model is hand-written and tied by correspondence (boundary + random inputs); "
           "the facts enoughPlasma rests on (fused QSR, committed / uncommitted chain plasma, base cost) are read from the "
